@@ -26,6 +26,9 @@ Inductive hop9 :=
    hold the fresh message - [lost] counts the iterations in which it held nothing.  Every order of "sweep the expired
    one" and "store the fresh one" ends with the fresh one stored. *)
 | HSweep (iters lost : N)
+(* [iters] rounds of "Retain has returned, then Subscribe" by one caller: [missed] subscriptions were not handed the
+   retained message *)
+| HAcked (iters missed : N)
 (* a session re-subscribes its filter over and over, alternating between (QoS 0, identifier 1) and (QoS 1, identifier 2),
    while publishes are routed to it: every copy must carry the parameters of ONE of the two subscriptions - [mixed]
    counts the copies whose granted QoS, options and identifier do not belong together *)
@@ -62,6 +65,7 @@ Fixpoint check9 (n : node) (hs : list hop9) : bool :=
   | HReplace t q k nr ne mono :: r =>
       (0 <? nr) && (ne =? 0) && mono && check9 (step n (ORetain t (mkMsg k q false) false true)) r
   | HSweep iters lost :: r => (0 <? iters) && (lost =? 0) && check9 n r
+  | HAcked iters missed :: r => (0 <? iters) && (missed =? 0) && check9 n r
   | HParams nd mixed :: r => (0 <? nd) && (mixed =? 0) && check9 n r
   end.
 
@@ -92,5 +96,6 @@ Fixpoint first_bad9 (i : nat) (n : node) (hs : list hop9) : option (nat * list N
   | HReplace t q k nr ne mono :: r =>
       if (0 <? nr) && (ne =? 0) && mono then first_bad9 (S i) (step n (ORetain t (mkMsg k q false) false true)) r else Some (i, [ne])
   | HSweep iters lost :: r => if (0 <? iters) && (lost =? 0) then first_bad9 (S i) n r else Some (i, [lost])
+  | HAcked iters missed :: r => if (0 <? iters) && (missed =? 0) then first_bad9 (S i) n r else Some (i, [missed])
   | HParams nd mixed :: r => if (0 <? nd) && (mixed =? 0) then first_bad9 (S i) n r else Some (i, [mixed])
   end.
